@@ -26,6 +26,10 @@ CLAIMED['C15'] = dict(engine='E6', technique='Coq: static analysis of cache-book
     text='Proof for histories of any length over the methods whose regenerated skeleton passes the verified analysis (all public methods except apply_style_attributes, a recorded finding): lazily cached run = re-parse-between-steps run; copies leave the receiver unchanged; in-place bodies return the receiver (syntactic check of every return). The primitives (what an edit or mutation does, the two conversion laws) are abstract and exercised by the history differential.',
     note='Skeleton extractor (tools/skeletons.py) trusted and fail-closed; laws populate(flush t c)=c and flush(flush t c)c\'=flush t c\' assumed of the dataclass<->element conversion; lxml round trip trusted. Axiom-free.',
     design='§7 C15')
+CLAIMED['C13'] = dict(engine='E5', technique='Coq proof relative to an explicit engine contract (Section hypotheses) about a hand model of svg_pathops.py; model runs the real Skia through an oracle in the differential run (identical outputs required); contract sampled with exact rational winding numbers',
+    text='Proved for operand lists of any length, relative to the stated contract of pathops.op / simplify: the wrappers return the fold of the set operation over the operands each under its own fill rule, rule-independent result, errors propagate (no wrong path on engine failure), stroke fallback keeps the interior, only M L Q C Z reach the engine. That Skia satisfies the contract is NOT proved: it is sampled on every run on lattice polygons with exact winding numbers outside the epsilon band.',
+    note='Engine contract assumed (hypotheses op_contract, simplify_contract in props/C13.v); hand model of the wrappers validated by oracle-in-the-loop correspondence (same engine, identical commands).',
+    design='§7 C13')
 PENDING = {}
 
 def main():
@@ -55,6 +59,7 @@ def main():
                   'enable': 'none needed: the harness observes picosvg only through its public API (PYTHONPATH=/repo/src) and calls pathops itself',
                   'baseline_off_cmd': BASE, 'source_commits': [], 'add_only': True},
         'engines': [
+            {'name': 'E5', 'path': 'coq/model/Skia.v coq/model/Doc*.v coq/proofs/E5_*.v tools/skia_oracle.py', 'serves_properties': ['C13', 'C18', 'C19', 'C01', 'C02', 'C03', 'C04', 'C05', 'C06', 'C07', 'C08', 'C14', 'C17'], 'kind_free_text': 'Skia wrappers with the engine as an oracle; document pipeline'},
             {'name': 'E6', 'path': 'coq/gen/G_skeletons.v (generated) coq/model/ObjCache.v coq/proofs/E6_cache.v', 'serves_properties': ['C15', 'C16'], 'kind_free_text': 'cache/tree state machine and verified skeleton analysis'},
             {'name': 'E2', 'path': 'coq/model/Lex.v coq/model/PathParse.v coq/model/TransformParse.v coq/spec/PathGrammar.v coq/gen/G_regex.v coq/proofs/E2_*.v', 'serves_properties': ['C10', 'C11', 'C05'], 'kind_free_text': 'character-level lexers pinned to the source regexes; SVG path grammar'},
             {'name': 'E3', 'path': 'coq/gen/G_types.v coq/gen/G_meta.v (generated) coq/model/Walk.v coq/spec/PathSem.v coq/proofs/E3_*.v', 'serves_properties': ['C09', 'C18', 'C20', 'C01', 'C07'], 'kind_free_text': 'walk state machine and path rewrites vs SVG path semantics'},
